@@ -19,10 +19,12 @@
 
   Covered instructions: nop, unreachable, drop, select, const, every numeric instruction (semantics
   abstract: `NumSem`, constrained only by arity/result type — their own correctness is C01/C02),
-  local.get/set/tee, block, loop, if/else, br, br_if, br_table, return.  Globals, memory
-  instructions and calls are translated by the model (and tied by emit-tokens) but their source
-  semantics is `stuck` here, i.e. the theorem says nothing about executions that reach them: this
-  is why the theorem is named `_partial`.
+  local.get/set/tee, global.get/set, block, loop, if/else, br, br_if, br_table, return, call,
+  call_indirect (callees abstract here, instantiated by C04's module-level theorem), every load and
+  store (the access functions abstract: `MemOK`, proved for the regenerated runtime functions in
+  C05; out-of-bounds accesses are outside every property and `stuck`), memory.size, memory.grow.
+  Still outside (source semantics `stuck`, hence `_partial`): memory.copy/fill/init, data.drop and
+  the atomic instructions (C16/C17 cover their runtime functions).
 -/
 import W2c2Verif.Lemmas.SimFunc
 
@@ -30,13 +32,13 @@ namespace W2c2Verif.Props.C03
 open W2c2Verif Model Gen Spec Sim
 
 /-- Simulation for instruction sequences (bodies of functions and blocks). -/
-theorem compile_sim_partial (ns : NumSem) (hns : NumOK ns) (ctx : Ctx) (hco : CallOK ns ctx)
+theorem compile_sim_partial (ns : NumSem) (hns : NumOK ns) (hmo : MemOK ns) (ctx : Ctx) (hco : CallOK ns ctx)
     (body : List EInstr) (st st' : St) (out : List MStmtC) (dead : Bool)
-    (stk loc : List Val) (σ : MSt) (fuel : Nat)
+    (stk : List Val) (loc : Store) (σ : MSt) (fuel : Nat)
     (hc : compileSeq ctx st body = .ok (st', out, dead))
-    (hw : WF st) (hr : Rel st.stack stk σ) (hl : σ.locals = loc) (hlt : LocTyped ctx loc) :
+    (hw : WF st) (hr : Rel st.stack stk σ) (hl : σ.store = loc) (hlt : LocTyped ctx loc) :
     SimRes ctx st stk σ st' dead (erunSeq ns fuel body stk loc) (execSeq ns fuel out σ) :=
-  (sim_all ns hns ctx hco fuel).1 body st st' out dead stk loc σ hc hw hr hl hlt
+  (sim_all ns hns hmo ctx hco fuel).1 body st st' out dead stk loc σ hc hw hr hl hlt
 
 /-- the static side: translation never touches the type stack below the innermost open label,
     restores the label stack, and keeps the translator state well formed — for ALL instructions -/
@@ -50,18 +52,19 @@ theorem compile_static (ctx : Ctx) (body : List EInstr) (st st' : St) (out : Lis
     stack.  `runFuncTgt`: the emitted C function — the same initial locals (the translator's
     `= 0` declarations are rendered by `Model.Render` and tied by emit-tokens), the body, `L0:;`
     and `return s<t>0;`, which exists only if some slot variable was declared.
-    Whenever the WebAssembly invocation returns (a value or nothing) or traps, within ANY fuel,
-    the C function returns the same value / takes the same trap; in particular the `return`
-    statement exists whenever a value is returned. -/
-theorem func_sim_partial (ns : NumSem) (hns : NumOK ns) (ctx : Ctx) (params locals : List VT) (result : Option VT)
-    (body : List EInstr) (cf : Model.CFunc) (args : List Val) (fuel : Nat)
+    Whenever the WebAssembly invocation returns (a value or nothing, leaving globals and memory `g'`)
+    or traps, within ANY fuel, the C function returns the same value and leaves the same globals and
+    memory / takes the same trap; in particular the `return` statement exists whenever a value is
+    returned. -/
+theorem func_sim_partial (ns : NumSem) (hns : NumOK ns) (hmo : MemOK ns) (ctx : Ctx) (params locals : List VT) (result : Option VT)
+    (body : List EInstr) (cf : Model.CFunc) (args : List Val) (g : GS) (fuel : Nat)
     (hco : CallOK ns { ctx with localTypes := params ++ locals })
-    (hc : compileFunc ctx params locals result body = .ok cf) (hargs : args.map vtOf = params) :
-    match runFuncSrc ns fuel locals result body args with
-    | .value v => runFuncTgt ns fuel cf args = .value v
-    | .trap t => runFuncTgt ns fuel cf args = .trap t
+    (hc : compileFunc ctx params locals result body = .ok cf) (hargs : args.map vtOf = params) (hg : GTyped ctx g) :
+    match runFuncSrc ns fuel locals result body args g with
+    | .value v g' => runFuncTgt ns fuel cf args g = .value v g' ∧ GTyped ctx g'
+    | .trap t => runFuncTgt ns fuel cf args g = .trap t
     | _ => True :=
-  func_sim ns hns ctx params locals result body cf args fuel hco hc hargs
+  func_sim ns hns hmo ctx params locals result body cf args g fuel hco hc hargs hg
 
 /-! ### the hypotheses are satisfiable, the conclusion is not trivial -/
 
@@ -76,9 +79,12 @@ def trapNS : NumSem where
 theorem trapNS_ok : NumOK trapNS := by
   refine ⟨fun opcode k h => by simp [trapNS, h], fun opcode k args v h hs => by simp [trapNS] at hs⟩
 
+theorem trapNS_mem : MemOK trapNS := by
+  refine ⟨?_, ?_, ?_, ?_, ?_⟩ <;> intros <;> simp_all [trapNS, vtOf]
+
 /-- in a module without functions to call, the call hypotheses hold trivially -/
 theorem trapNS_calls (lt : List VT) : CallOK trapNS { localTypes := lt } := by
-  refine ⟨?_, ?_, ?_, ?_, ?_, ?_, ?_, ?_⟩ <;> intros <;> simp_all [trapNS]
+  refine ⟨?_, ?_, ?_, ?_, ?_, ?_, ?_, ?_, ?_, ?_⟩ <;> intros <;> simp_all [trapNS]
 
 /-- `(func (param i32) (result i32) (local i32)
        (block (result i32) i32.const 5 (block local.get 0 i32.const 7 br 2) drop i32.const 9) local.set 1 local.get 1)`
@@ -87,10 +93,11 @@ def demoBody : List EInstr :=
   [.block (some .i32) [.const .i32 5, .block none [.localGet 0, .const .i32 7, .br 2], .drop, .const .i32 9], .localSet 1, .localGet 1]
 
 example : (compileFunc {} [.i32] [.i32] (some .i32) demoBody).toOption.isSome = true := by decide
-example : runFuncSrc trapNS 20 [.i32] (some .i32) demoBody [.i32 3] = .value (some (.i32 7)) := by rfl
+example : runFuncSrc trapNS 20 [.i32] (some .i32) demoBody [.i32 3] = .value (some (.i32 7)) {} := by rfl
 /-- ... hence, by the theorem, the emitted C returns 7 as well -/
 example (cf : Model.CFunc) (hc : compileFunc {} [.i32] [.i32] (some .i32) demoBody = .ok cf) :
-    runFuncTgt trapNS 20 cf [.i32 3] = .value (some (.i32 7)) :=
-  func_sim_partial trapNS trapNS_ok {} [.i32] [.i32] (some .i32) demoBody cf [.i32 3] 20 (trapNS_calls _) hc rfl
+    runFuncTgt trapNS 20 cf [.i32 3] = .value (some (.i32 7)) {} :=
+  (func_sim_partial trapNS trapNS_ok trapNS_mem {} [.i32] [.i32] (some .i32) demoBody cf [.i32 3] {} 20 (trapNS_calls _) hc rfl
+    ⟨rfl, fun k h => absurd h (Nat.not_lt_zero _)⟩).1
 
 end W2c2Verif.Props.C03
